@@ -12,7 +12,7 @@ package kubernetes
 //@ check.ordinal_plus_one[C10] ordinal < 9223372036854775807 ==> result != nil && typeis(result, "*statefulSetMembership") && as(result, "*statefulSetMembership").info != nil && as(result, "*statefulSetMembership").info.MemberNumber == ordinal + 1 && as(result, "*statefulSetMembership").info.TotalMembers == config.Dcp.Group.Membership.TotalMembers && ordinal + 1 <= config.Dcp.Group.Membership.TotalMembers
 //@ ensures.kind[C10,C15] result != nil && typeis(result, "*statefulSetMembership")
 //@ check.hostname_ok[C15] dret("kubernetes.getPodOrdinalFromHostname", 0, 1) == nil
-//@ modifies calls("kubernetes.getPodOrdinalFromHostname")
+//@ modifies calls("kubernetes.getPodOrdinalFromHostname"), calls("os.Hostname")
 
 // The pod ordinal is the decimal number after the LAST '-' of the host name (statefulset naming), the whole
 // suffix and nothing else; a host name without one, or with a non-numeric suffix, is an error (C10, C15).
